@@ -15,8 +15,11 @@ structure DrvKey where
   text : String
   peerId : Option String
 
-def drvVerifyEnv : VerifyEnv :=
+/-- `bad`: the value texts `serde_json::from_str::<JValue>` rejects (decided by the harness with the real parser, like the
+float oracle of C26 and the `parse_errs` of the `exec` op) -/
+def drvVerifyEnv (bad : List String) : VerifyEnv :=
   { PK := DrvKey, Sig := SymSig,
+    isJson := fun t => !bad.contains t,
     validate := fun k => k.peerId.isSome,
     toPeerId := fun k => k.peerId.getD "",
     keyText := fun k => k.text,
@@ -48,7 +51,7 @@ def symSigOfJson (j : Json) : SymSig :=
   | some t => .sig (jStr (idx t 0)) (unhex (jStr (idx t 1)))
   | none => .junk (getNat j "junk")
 
-def vdataOfJson (j : Json) : Option (VData drvVerifyEnv) := do
+def vdataOfJson (bad : List String) (j : Json) : Option (VData (drvVerifyEnv bad)) := do
   let trace ← traceOfJson ((field j "trace").getD (Json.arr #[]))
   let sigs : List (DrvKey × SymSig) := (getArr j "signatures").toList.map fun e =>
     (({ text := getStr e "pk", peerId := (e.getObjValAs? String "peer_id").toOption } : DrvKey),
@@ -62,12 +65,14 @@ def cidStoreErrJson : CidStoreVerificationError → List (String × Json)
      | .valueMismatch c | .malformedCid c => [("cid", Json.str c)]
      | .unsupportedCidCodec n | .unsupportedHashCode n => [("num", toJson n)])
   | .missingReference s t c => [("sub", "MissingReference"), ("source", Json.str s), ("target", Json.str t), ("cid", Json.str c)]
+  | .malformedValue c => [("sub", "MalformedValue"), ("cid", Json.str c)]
 
 def verifierErrJson : DataVerifierError → List (String × Json)
   | .malformedKey k => [("sub", "MalformedKey"), ("key", Json.str k)]
   | .peerIdNotFound p => [("sub", "PeerIdNotFound"), ("peer", Json.str p)]
   | .signatureMismatch p cids => [("sub", "SignatureMismatch"), ("peer", Json.str p), ("cids", toJson cids)]
   | .mergeMismatch p => [("sub", "MergeMismatch"), ("peer", Json.str p)]
+  | .cidNotFound c => [("sub", "CidNotFound"), ("cid", Json.str c)]
 
 def verificationErrJson (e : VerificationError) : Json :=
   let code := (errorCode? .preparation e.variant).getD 0
@@ -77,22 +82,23 @@ def verificationErrJson (e : VerificationError) : Json :=
      | .dataSignatureCheckError x => verifierErrJson x))
 
 /-- all peers whose signature fails (the code reports whichever its hash map yields first) -/
-def failingPeers (salt : String) (g : Grouped drvVerifyEnv) : List String :=
+def failingPeers (bad : List String) (salt : String) (g : Grouped (drvVerifyEnv bad)) : List String :=
   g.filterMap fun p =>
     match saltedData p.2.cids salt with
-    | some m => if drvVerifyEnv.verifySig p.2.publicKey m p.2.signature then none else some p.1
+    | some m => if (drvVerifyEnv bad).verifySig p.2.publicKey m p.2.signature then none else some p.1
     | none => some p.1
 
 /-- `{"op":"verify_data","salt":..,"cur":{trace,stores,signatures},"prev":{..}?}` -/
 def opVerifyData (j : Json) : Json :=
   let salt := getStr j "salt"
-  match vdataOfJson ((field j "cur").getD Json.null) with
+  let bad := getStrList j "non_json_values"
+  match vdataOfJson bad ((field j "cur").getD Json.null) with
   | none => Json.mkObj [("error", "current data does not parse")]
   | some cur =>
-    let failing : List String := match DataVerifier.new drvVerifyEnv cur with
-      | .ok g => failingPeers salt g
+    let failing : List String := match DataVerifier.new (drvVerifyEnv bad) cur with
+      | .ok g => failingPeers bad salt g
       | _ => []
-    let groups : Json := match DataVerifier.new drvVerifyEnv cur with
+    let groups : Json := match DataVerifier.new (drvVerifyEnv bad) cur with
       | .ok g => Json.mkObj (g.map fun p => (p.1, toJson p.2.cids))
       | _ => Json.null
     let extra := [("failing_peers", toJson failing), ("groups", groups)]
@@ -101,15 +107,15 @@ def opVerifyData (j : Json) : Json :=
       | x => x
     match field j "prev" with
     | none =>
-      withExtra (match verifyData drvVerifyEnv cur salt with
+      withExtra (match verifyData (drvVerifyEnv bad) cur salt with
         | .ok () => Json.mkObj [("result", "ok")]
         | .error e => verificationErrJson e
         | .panic s => Json.mkObj [("result", "panic"), ("site", Json.str s)])
     | some pj =>
-      match vdataOfJson pj with
+      match vdataOfJson bad pj with
       | none => Json.mkObj [("error", "previous data does not parse")]
       | some prev =>
-        withExtra (match verifyStep drvVerifyEnv prev cur salt with
+        withExtra (match verifyStep (drvVerifyEnv bad) prev cur salt with
           | .ok merged => Json.mkObj [("result", "ok"), ("merged", Json.mkObj (merged.map fun (p, i) => (p, Json.str i.signature)))]
           | .error e => verificationErrJson e
           | .panic s => Json.mkObj [("result", "panic"), ("site", Json.str s)])
